@@ -11,7 +11,8 @@
   Totality of the third-party parsers (gogll engine, encoding/xml, encoding/json, x/net/html) on
   arbitrary bytes is exercised by the fuzz families, not proved.
 -/
-import Proofs.Gen
+import Proofs.GenPartial
+import Proofs.GenTables
 import Proofs.C06
 import Proofs.C07
 import Proofs.C16
